@@ -153,6 +153,14 @@ example :
     (run (cancel s 1).1 [.tick, .tick]).events = [.init 0, .exec 0 0 0, .exec 0 0 1, .final 0] := by
   decide +kernel
 
+/-- …also while the run is paused (the command is not executed then, but the cancel finalizes it). -/
+example :
+    let cfg : Cfg := { cmds := [⟨6, none⟩] }
+    let s := reach cfg [.user .start, .tick, .req 0, .tick, .pause true, .tick]
+    s.paused = true ∧ s.events = [.init 0, .exec 0 0 0] ∧ (cancel s 1).2 = .ok ∧
+    (cancel s 1).1.events = [.init 0, .exec 0 0 0, .final 0] ∧ liveObjs (cancel s 1).1 = [] := by
+  decide +kernel
+
 /-! ## The clause that fails -/
 
 /-- Exec callbacks, after the state `s0`, of instances owned by request `i`. -/
